@@ -265,7 +265,9 @@ func runClientScript(depth int, steps []string) (res clientRun) {
 				m, err := pl.TEIGetMove(ctx, pos, tc)
 				o = errClass(d, err)
 				if err == nil {
-					o += " " + encMove(m)
+					// is the answer legal in the caller's own position?
+					_, lerr := pos.Move(m)
+					o += " " + encMove(m) + " legal=" + strconv.Itoa(b2i(lerr == nil))
 				}
 			}()
 			// a movetime that is not floor(rem/1ms) although rem >= 1ms: the clock moved by a millisecond between
